@@ -221,7 +221,11 @@ Record inv (items A R : list xitem) (b : N) (done : list exc_entry) : Prop := {
   i_bound : forall h, In h A -> x_key h < 2 * b \/ (x_key h = 2 * b /\ x_key h mod 4 = 2);
   i_brk : brk (keys A) false = true;
   i_done : forall e, In e done -> entry_ok items A e;
-  i_count : length (filter keven A) = (2 * length done)%nat
+  i_count : length (filter keven A) = (2 * length done)%nat;
+  (* every op placed so far is an original instruction or a synthetic op whose class matches its key class *)
+  i_shape : forall h, In h A -> (real_item h /\ In h items) \/
+                                 (x_key h mod 4 = 0 /\ x_opc h = op_SETUP_EXCEPT_311) \/
+                                 (x_key h mod 4 = 2 /\ x_opc h = op_POP_BLOCK)
 }.
 
 Lemma kodd_real : forall it, real_item it -> kodd it = true.
@@ -252,7 +256,7 @@ Proof. intros P l l' H Hs. apply Forall_forall. intros x Hx. rewrite Forall_fora
 
 Lemma inv_weaken : forall items A R b b' done, inv items A R b done -> b <= b' -> inv items A R b' done.
 Proof.
-  intros items A R b b' done [H1 H2 H3 H4 H5 H6] Hb. constructor; auto.
+  intros items A R b b' done [H1 H2 H3 H4 H5 H6 H7] Hb. constructor; auto.
   intros h Hh. destruct (H3 h Hh) as [H|[H H']].
   - left. lia.
   - destruct (N.eq_dec b b') as [E|E]; [subst; right; auto | left; lia].
@@ -284,7 +288,7 @@ Lemma add_exception_block_step : forall items A R b done e s t,
   In s items -> x_key s = key_of (e_start e) -> In t items -> x_key t = key_of (e_target e) ->
   exists A' R', add_exception_block (A ++ R) e = Ok (A' ++ R') /\ inv items A' R' (e_end e + 1) (done ++ [e]).
 Proof.
-  intros items A R b done e s t Hreal [I1 I2 I3 I4 I5 I6] Hb Hse Hs Hks Ht Hkt.
+  intros items A R b done e s t Hreal [I1 I2 I3 I4 I5 I6 I7] Hb Hse Hs Hks Ht Hkt.
   assert (RsubI : forall x, In x R -> In x items) by (intros x Hx; rewrite I1; apply in_or_app; auto).
   assert (RealR : Forall real_item R) by (eapply Forall_sub; eauto).
   assert (Rs : real_item s) by (rewrite Forall_forall in Hreal; auto).
@@ -427,6 +431,17 @@ Proof.
       cbn [filter]. rewrite KeS, KeP.
       rewrite (filter_keven_real Ra), (filter_keven_real (Rc ++ [lst])) by auto.
       rewrite !app_length. cbn [length]. rewrite I6. lia.
+    + intros h Hh. apply in_app_or in Hh. destruct Hh as [Hh|[Hh|[]]].
+      * apply in_app_or in Hh. destruct Hh as [Hh|[Hh|Hh]].
+        -- apply in_app_or in Hh. destruct Hh as [Hh|Hh]; [exact (I7 h Hh)|]. left. split.
+           ++ rewrite Forall_forall in RealRa. auto.
+           ++ apply RsubI. rewrite ER. apply in_or_app. left. exact Hh.
+        -- subst h. right. left. split; [rewrite KS; lia | reflexivity].
+        -- left. split.
+           ++ rewrite Forall_forall in RealRc. auto.
+           ++ apply RsubI. rewrite ER. apply in_or_app. right. rewrite ERc.
+              apply in_app_or in Hh. apply in_or_app. destruct Hh as [Hh|[Hh|[]]]; [left; auto | right; left; auto].
+      * subst h. right. right. split; [change (x_key P) with (x_key lst + 1); unfold real_item in Rl; lia | reflexivity].
 Qed.
 
 (* ================================================================================================ *)
@@ -474,6 +489,7 @@ Proof.
   intros items H. constructor; simpl; auto.
   - intros h [].
   - intros e [].
+  - intros h [].
 Qed.
 
 Lemma wf_excb_spec : forall items entries, wf_excb items entries = true ->
